@@ -98,24 +98,33 @@ func mkInfo(src, pid int, t int64) *model.ProviderInfo {
 		LastAdvertisementTime: time.Unix(timeBase+t, 0).UTC().Format(time.RFC3339),
 		LastAdvertisement:     pcdrv.VersionCid(vtag(src, pid, t)), // another head advertisement for every version
 	}
+	// the shape depends on the provider too: one listing carries records with and without
+	// chain-level / contextual extended providers, in varying order
+	k := t + int64(pid)*3
 	xp := &model.ExtendedProviders{}
 	// chain level: the provider itself (skipped or not depending on its metadata), two others
 	xp.Providers = []peer.AddrInfo{pcdrv.AddrInfo(pid, vtag(src, 100, t)), pcdrv.AddrInfo(30, vtag(src, 101, t)), pcdrv.AddrInfo(31, vtag(src, 102, t))}
-	xp.Metadatas = [][]byte{mdOf(t), mdOf(t + 1), mdOf(t + 3)}
-	if t%5 == 0 {
+	xp.Metadatas = [][]byte{mdOf(k), mdOf(k + 1), mdOf(k + 3)}
+	if k%5 == 0 {
 		xp.Metadatas = xp.Metadatas[:1] // shorter than the provider list
 	}
 	// context level, for the context the readers ask about and for another one
-	cx := model.ContextualExtendedProviders{ContextID: grCtx, Override: t%2 == 0,
+	cx := model.ContextualExtendedProviders{ContextID: grCtx, Override: k%2 == 0,
 		Providers: []peer.AddrInfo{pcdrv.AddrInfo(32, vtag(src, 103, t)), pcdrv.AddrInfo(pid, vtag(src, 104, t))},
-		Metadatas: [][]byte{mdOf(t + 1), mdOf(t + 2)}}
-	if t%7 == 0 {
+		Metadatas: [][]byte{mdOf(k + 1), mdOf(k + 2)}}
+	if k%7 == 0 {
 		cx.Metadatas = nil
 	}
 	other := model.ContextualExtendedProviders{ContextID: "other", Override: true,
-		Providers: []peer.AddrInfo{pcdrv.AddrInfo(33, vtag(src, 105, t))}, Metadatas: [][]byte{mdOf(t)}}
+		Providers: []peer.AddrInfo{pcdrv.AddrInfo(33, vtag(src, 105, t))}, Metadatas: [][]byte{mdOf(k)}}
 	xp.Contextual = []model.ContextualExtendedProviders{other, cx}
-	if t%11 == 3 {
+	switch k % 4 {
+	case 1:
+		xp.Contextual = nil // chain-level only
+	case 2:
+		xp.Providers, xp.Metadatas = nil, nil // contextual only
+	}
+	if k%4 == 3 {
 		pi.ExtendedProviders = nil
 	} else {
 		pi.ExtendedProviders = xp
@@ -732,6 +741,7 @@ type dsrc struct {
 	known   map[int]int64 // what only Fetch knows (not listed yet)
 	lag     map[int]int   // ingest status reported for a provider (0: healthy)
 	salt    int           // makes this source's head-advertisement CIDs its own
+	failAll bool          // FetchAll fails (an outage)
 	late    map[int]int64 // what a Fetch that is held open will answer for a provider once released: a time, or -1 for "not found" (the answer was taken when the call arrived)
 	gateAll chan struct{} // one-shot: the next FetchAll waits for it
 	gateOne chan struct{} // one-shot: the next Fetch waits for it
@@ -746,6 +756,15 @@ func newDsrc() *dsrc {
 func dinfo(pid int, t int64, lag int, salt int) *model.ProviderInfo {
 	pi := &model.ProviderInfo{AddrInfo: pcdrv.AddrInfo(pid, pid), LastAdvertisement: pcdrv.VersionCid(salt*100000 + int(t)*100 + pid),
 		LastAdvertisementTime: time.Unix(timeBase+t, 0).UTC().Format(time.RFC3339)}
+	// a listing is heterogeneous: odd providers have chain-level extended providers, every
+	// fourth also contextual ones, even providers none
+	if pid%2 == 1 {
+		pi.ExtendedProviders = &model.ExtendedProviders{Providers: []peer.AddrInfo{pcdrv.AddrInfo(30+pid%4, 500+pid)}, Metadatas: [][]byte{{byte(pid), byte(t)}}}
+		if pid%4 == 1 {
+			pi.ExtendedProviders.Contextual = []model.ContextualExtendedProviders{{ContextID: grCtx, Override: true,
+				Providers: []peer.AddrInfo{pcdrv.AddrInfo(34, 600+pid)}, Metadatas: [][]byte{{0x0c, byte(pid)}}}}
+		}
+	}
 	if lag != 0 {
 		pi.Lag, pi.Inactive, pi.LastError = lag, true, fmt.Sprintf("sync failed (lag %d)", lag)
 		pi.LastErrorTime = time.Unix(timeBase+int64(lag), 0).UTC().Format(time.RFC3339)
@@ -773,10 +792,21 @@ func (s *dsrc) FetchAll(ctx context.Context) ([]*model.ProviderInfo, error) {
 		return nil, ctx.Err() // the caller gave up while the call was open
 	}
 	s.mu.Lock()
+	down := s.failAll
+	s.mu.Unlock()
+	if down {
+		return nil, fmt.Errorf("source unavailable")
+	}
+	s.mu.Lock()
 	defer s.mu.Unlock()
 	var out []*model.ProviderInfo
-	for p, t := range s.listed {
-		out = append(out, dinfo(p, t, s.lag[p], s.salt))
+	pids := make([]int, 0, len(s.listed))
+	for p := range s.listed {
+		pids = append(pids, p)
+	}
+	sort.Ints(pids)
+	for _, p := range pids {
+		out = append(out, dinfo(p, s.listed[p], s.lag[p], s.salt))
 	}
 	return out, nil
 }
@@ -1271,6 +1301,86 @@ func directedLateMissAnswer(name string, notFound bool) Directed {
 	return d
 }
 
+// (g) an outage that ends with an UNCHANGED record cancels the removal countdown it started:
+// the source fails, recovers without a new advertisement, more than a time-to-live passes,
+// it fails again; the provider must still be cached
+func directedOutageRecovery(name string, newer bool) Directed {
+	d := Directed{Name: name}
+	src := newDsrc()
+	src.salt = 5
+	src.listed[dP] = 1
+	ttl := 150 * time.Millisecond
+	pc, err := pcache.New(pcache.WithSource(src), pcache.WithTTL(ttl), pcache.WithRefreshInterval(0))
+	if err != nil {
+		panic(err)
+	}
+	set := func(down bool) { src.mu.Lock(); src.failAll = down; src.mu.Unlock() }
+	check := func(when string) {
+		pi, _ := pc.Get(context.Background(), pcdrv.Peer(dP))
+		listed := false
+		for _, x := range pc.List() {
+			if x.AddrInfo.ID == pcdrv.Peer(dP) {
+				listed = true
+			}
+		}
+		if pi == nil || !listed {
+			d.Failures = append(d.Failures, fmt.Sprintf("removed-early: provider P is reported missing %s (Get record: %v, listed: %v); its removal countdown must have been cancelled when the source reported it again", when, pi != nil, listed))
+		}
+	}
+	set(true)
+	_ = pc.Refresh(context.Background()) // first outage: the countdown starts
+	check("during the first outage")
+	set(false)
+	if newer {
+		src.mu.Lock()
+		src.listed[dP] = 2
+		src.mu.Unlock()
+	}
+	_ = pc.Refresh(context.Background()) // recovery
+	check("after the source recovered")
+	time.Sleep(ttl + 100*time.Millisecond) // more than a time-to-live after the first outage
+	set(true)
+	_ = pc.Refresh(context.Background()) // second outage: a NEW countdown starts now
+	check("at the start of a second outage, more than a time-to-live after the first")
+	return d
+}
+
+// (h) a provider cached by a miss-fetch keeps its time: the source with the newest version
+// fails at the next refresh while a lagging source answers
+func directedMissThenNewestFails(name string) Directed {
+	d := Directed{Name: name}
+	a, b := newDsrc(), newDsrc()
+	a.salt, b.salt = 6, 7
+	a.listed[dP] = 2
+	b.listed[dP] = 1
+	pc, err := pcache.New(pcache.WithSource(a, b), pcache.WithTTL(time.Hour), pcache.WithRefreshInterval(0), pcache.WithPreload(false))
+	if err != nil {
+		panic(err)
+	}
+	best := int64(-1)
+	look := func(when string) {
+		pi, _ := pc.Get(context.Background(), pcdrv.Peer(dP))
+		if pi == nil {
+			d.Failures = append(d.Failures, "cached-provider-missing: Get "+when+" returned no record")
+			return
+		}
+		if t := timeOf(pi); t < best {
+			d.Failures = append(d.Failures, fmt.Sprintf("went-back: Get %s returns the record of advertisement time %d after an earlier read returned time %d (the source holding the newest version failed, a lagging one answered)", when, t, best))
+		} else {
+			best = t
+		}
+	}
+	look("(a miss: both sources are asked)")
+	a.mu.Lock()
+	a.failAll = true
+	a.mu.Unlock()
+	_ = pc.Refresh(context.Background())
+	look("after a refresh in which the newest source failed")
+	_ = pc.Refresh(context.Background())
+	look("after a second such refresh")
+	return d
+}
+
 func runDirected(only string) []Directed {
 	var out []Directed
 	add := func(name string, f func() Directed) {
@@ -1310,6 +1420,11 @@ func runDirected(only string) []Directed {
 	})
 	add("writers/late-miss-answer-older", func() Directed { return directedLateMissAnswer("writers/late-miss-answer-older", false) })
 	add("writers/late-miss-answer-not-found", func() Directed { return directedLateMissAnswer("writers/late-miss-answer-not-found", true) })
+	add("records/outage-recovery-unchanged", func() Directed { return directedOutageRecovery("records/outage-recovery-unchanged", false) })
+	add("records/outage-recovery-newer", func() Directed { return directedOutageRecovery("records/outage-recovery-newer", true) })
+	add("records/miss-fetched-then-newest-source-fails", func() Directed {
+		return directedMissThenNewestFails("records/miss-fetched-then-newest-source-fails")
+	})
 	add("records/lagging-source", func() Directed { return directedLaggingSource("records/lagging-source", false) })
 	add("records/source-rolled-back", func() Directed { return directedLaggingSource("records/source-rolled-back", true) })
 	add("records/http-listing-shifts", func() Directed { return directedHTTPListingShifts("records/http-listing-shifts") })
